@@ -37,7 +37,7 @@ impl Dl {
         match self {
             Dl::Past => 0,
             Dl::Ms(n) => n,
-            Dl::Beyond(s) => s.saturating_mul(1000),
+            Dl::Beyond(s) => s.saturating_mul(1000).min(1 << 60),
         }
     }
 }
